@@ -149,3 +149,16 @@ Definition nz_excess (n : nat) (g : N -> Q) (c : N) : Q := g c - nz_ssum g n c.
 Definition nz_surplus (n : nat) (g : N -> Q) : Q := nz_excess n g (grand n).
 Definition nz_normal (n : nat) (g : N -> Q) (c : N) : Q :=
   if Qeq_bool (nz_surplus n g) 0 then nz_excess n g c else nz_excess n g c / nz_surplus n g.
+
+(* ---------- the notions the theorems are stated with ---------- *)
+(* superadditivity on the coalitions of n players (the same definition the other slices use) *)
+Definition nz_SA (n : nat) (v : N -> Q) : Prop :=
+  forall A B, bounded n A -> bounded n B -> disjb A B = true -> v A + v B <= v (N.lor A B).
+
+(* the table t is a full game whose value function is g (values up to ==; both columns, every row known) *)
+Definition nz_game (n : nat) (t : table) (g : N -> Q) : Prop :=
+  forall c, bounded n c -> known (get t c) = true /\ lo (get t c) == g c /\ hi (get t c) == g c.
+
+(* executable superadditivity test on the 2^n x 2^n pairs (used by the Examples; sound by nz_SAb_sound) *)
+Definition nz_SAb (n : nat) (v : N -> Q) : bool :=
+  forallb (fun A => forallb (fun B => if disjb A B then Qle_bool (v A + v B) (v (N.lor A B)) else true) (alln n)) (alln n).
